@@ -699,3 +699,6 @@ mod tests {
         }
     }
 }
+
+#[cfg(futures_intrusive_verif)]
+include!(concat!(env!("FI_VERIF_INC"), "/list.rs"));
